@@ -23,6 +23,7 @@ RULE = (
     "non-trivial = a visited state in which at least one particle is dead-or-removed AND at least "
     "one survives (identity can actually be confused); distinct = distinct canonical states"
 )
+RULE += " Beyond the lattice (chosen scenarios, not enumerated): crowd histories (120-1200 particles, one or two dead), also through Output.write."
 ASSUMPTIONS = [
     "operation arguments are deterministic functions of the current State, so pruning on "
     "(canonical state, remaining depth) is sound",
